@@ -20,7 +20,7 @@ def BOUND(tier):
 
 
 def RULE(tier):
-    return ("" if tier == "quick" else sched.THOROUGH_NOTE + ". ") + ("every doer forest shape of the tier x every execution with <= %d deviations (config, leaf kind, per-step "
+    return ("" if tier == "quick" else "thorough tier: every forest of nesting depth <= 2 with <= 4 leaves and of depth 3 with <= 2 leaves; deviation bound 3 on forests of <= 2 leaves, else 2. ") + ("every doer forest shape of the tier x every execution with <= %d deviations (config, leaf kind, per-step "
             "yield/return/raise/complete-or-fail in enter, limit and start tyme given to the constructor or to do()/ado() over stale constructor values (optionally followed by a second run without arguments), and which ready asyncio handle runs next while 0..2 competitor "
             "tasks spin on sleep(0)); the run with Doist.do() and the run with Doist.ado() on the virtual loop must give "
             "identical event traces, tymes, done flags, completion cycle and forced exits." % BOUND(tier))
@@ -34,7 +34,10 @@ def jobs(tier):
     if tier == "quick":
         sh = sched.shapes(2, maxtop=2, maxleaves=3, always=True)
     else:
-        sh = sched.thorough_shapes(always=True)
+        # forests of depth <= 2 with <= 4 leaves, plus the deeper ones with <= 2 leaves (the do()/ado() difference lies in the
+        # scheduler's own loop; the full depth-3 set of the scheduler group took an hour here for no new outcome classes)
+        sh = sched.shapes(2, maxtop=3, maxleaves=4, always=True)
+        sh = sh + [x for x in sched.shapes(3, maxtop=2, maxleaves=2, always=True) if x not in sh]
     sweep = [("C30", s, 1, "sweep") for s in [("L",), ("L", "L"), (("D", True, ("L",)),), (("D", False, ("L", "L")),)]]
     return [("C30", s, nc) for s in sh for nc in (0, 1, 2)] + sharded(sweep, 8)
 
